@@ -256,6 +256,23 @@ func runC17(c *core.Ctx, ck *Check) {
 				q[x] = bad + v
 				check("vers:"+j.scheme+"/"+strings.Join(q, "|"), probe, "operator-mangling")
 			}
+			// the canonical two-bound interval with one surplus character after a comparator (>==a|<b, >=a|<==b): whatever
+			// path evaluates this most common shape must validate the comparators like every other path
+			if len(strs) >= 2 {
+				a, b2 := strs[r.IntN(len(strs))], strs[r.IntN(len(strs))]
+				if va, _, _ := e.SafeNewVersion(a); va != nil {
+					if vb, _, _ := e.SafeNewVersion(b2); vb != nil {
+						if cv, _ := eco.SafeCompare(va, vb); cv > 0 {
+							a, b2 = b2, a
+						}
+						for _, m := range [][2]string{{">==", "<"}, {">=", "<=="}, {">===", "<"}, {">", "<=="}, {">=", "<<"}, {">>=", "<"}, {">=", "<=<"}} {
+							for _, pr := range []string{a, b2, probe} {
+								check("vers:"+j.scheme+"/"+m[0]+a+"|"+m[1]+b2, pr, "surplus-comparator-character")
+							}
+						}
+					}
+				}
+			}
 			for _, st := range []string{"*|" + parts[0], parts[0] + "|*", "*|*", "*" + parts[0], parts[0] + "*", ">=*", "* *"} {
 				check("vers:"+j.scheme+"/"+st, probe, "star-misuse")
 			}
